@@ -4,11 +4,8 @@ package main
 // renders "<input-with-codec-tables> <observation>".
 
 import (
-	"context"
-	"encoding/xml"
 	"errors"
 	"fmt"
-	"hash/fnv"
 	"net/http"
 	"net/url"
 	"sort"
@@ -444,477 +441,3 @@ func guard(f func() string) (s string) {
 	return f()
 }
 
-type clients struct {
-	cal  *caldav.Client
-	card *carddav.Client
-	ic   *verifhook.Client
-}
-
-func newClients(hc interface {
-	Do(*http.Request) (*http.Response, error)
-}) clients {
-	var c clients
-	var err error
-	if c.cal, err = caldav.NewClient(hc, "http://dav.example.org"); err != nil {
-		panic(err)
-	}
-	if c.card, err = carddav.NewClient(hc, "http://dav.example.org"); err != nil {
-		panic(err)
-	}
-	if c.ic, err = verifhook.NewClient(hc, "http://dav.example.org"); err != nil {
-		panic(err)
-	}
-	return c
-}
-
-var ctx = context.Background()
-
-const reportPath = "/u/cal/c/"
-
-func objsSx(l []*Obj) string {
-	s := make([]string, len(l))
-	for i, o := range l {
-		s[i] = o.Sx()
-	}
-	return hx.L(s...)
-}
-
-func parseObjs(x hx.Sx) []*Obj {
-	var out []*Obj
-	for _, o := range x.List {
-		out = append(out, parseObj(o))
-	}
-	return out
-}
-
-// (query fl principal (objs))
-func runQuery(card bool, principal string, objs []*Obj) string {
-	tb := newTabs(card)
-	tb.path(principal)
-	for _, o := range objs {
-		tb.obj(o)
-	}
-	w := &world{card: card, principal: principal, objs: objs}
-	tr := &inproc{h: w.handler()}
-	cl := newClients(tr)
-	obs := guard(func() string {
-		var res string
-		if card {
-			l, err := cl.card.QueryAddressBook(ctx, reportPath, &carddav.AddressBookQuery{})
-			res = cardObjsSx(l, err)
-		} else {
-			l, err := cl.cal.QueryCalendar(ctx, reportPath, &caldav.CalendarQuery{CompFilter: caldav.CompFilter{Name: "VCALENDAR"}})
-			res = calObjsSx(l, err)
-		}
-		return bodySx(card, tr.lastBody, tb) + " " + res
-	})
-	return hx.L("query", flSx(card), hx.S(principal), objsSx(objs), tb.Sx()) + " " + hx.L(obs)
-}
-
-type hrefOut struct {
-	Href string
-	Out  *Outcome
-}
-
-// (multiget fl principal (hrefs) ((href outcome)...))
-func runMultiget(card bool, principal string, hrefs []string, outs []hrefOut) string {
-	tb := newTabs(card)
-	tb.path(principal)
-	w := &world{card: card, principal: principal, byPath: map[string]*Outcome{}}
-	var os []string
-	for _, ho := range outs {
-		w.byPath[ho.Href] = ho.Out
-		tb.path(ho.Href)
-		tb.outcome(ho.Out)
-		os = append(os, hx.L(hx.S(ho.Href), outcomeSx(card, ho.Out)))
-	}
-	for _, h := range hrefs {
-		tb.path(h)
-		// the path the server reads from the request
-		if d := tb.hrefDec[tb.hrefEnc[h]]; d != nil {
-			tb.path(*d)
-		}
-	}
-	tr := &inproc{h: w.handler()}
-	cl := newClients(tr)
-	obs := guard(func() string {
-		var res string
-		if card {
-			l, err := cl.card.MultiGetAddressBook(ctx, reportPath, &carddav.AddressBookMultiGet{Paths: hrefs})
-			res = cardObjsSx(l, err)
-		} else {
-			l, err := cl.cal.MultiGetCalendar(ctx, reportPath, &caldav.CalendarMultiGet{Paths: hrefs})
-			res = calObjsSx(l, err)
-		}
-		return bodySx(card, tr.lastBody, tb) + " " + res + " " + strsSx(w.getCalls)
-	})
-	return hx.L("multiget", flSx(card), hx.S(principal), strsSx(hrefs), hx.L(os...), tb.Sx()) + " " + hx.L(obs)
-}
-
-func collsSx(l []*Coll) string {
-	s := make([]string, len(l))
-	for i, c := range l {
-		s[i] = c.Sx()
-	}
-	return hx.L(s...)
-}
-
-func compsSx(l []string) string { return strsSx(l) }
-
-// (find fl principal home (colls))
-func runFind(card bool, principal, home string, colls []*Coll) string {
-	tb := newTabs(card)
-	tb.path(principal)
-	tb.path(home)
-	for _, c := range colls {
-		tb.path(c.Path)
-	}
-	w := &world{card: card, principal: principal, home: home, colls: colls}
-	tr := &inproc{h: w.handler()}
-	cl := newClients(tr)
-	obs := guard(func() string {
-		var res string
-		if card {
-			l, err := cl.card.FindAddressBooks(ctx, home)
-			if err != nil {
-				res = errSx(err)
-			} else {
-				items := []string{"ok"}
-				for _, c := range l {
-					var ad []string
-					for _, t := range c.SupportedAddressData {
-						ad = append(ad, hx.L(hx.S(t.ContentType), hx.S(t.Version)))
-					}
-					items = append(items, hx.L("cv", hx.S(c.Path), hx.S(c.Name), hx.S(c.Description), hx.I(c.MaxResourceSize), hx.L(), hx.L(ad...)))
-				}
-				res = hx.L(items...)
-			}
-		} else {
-			l, err := cl.cal.FindCalendars(ctx, home)
-			if err != nil {
-				res = errSx(err)
-			} else {
-				items := []string{"ok"}
-				for _, c := range l {
-					items = append(items, hx.L("cv", hx.S(c.Path), hx.S(c.Name), hx.S(c.Description), hx.I(c.MaxResourceSize), compsSx(c.SupportedComponentSet), hx.L()))
-				}
-				res = hx.L(items...)
-			}
-		}
-		return bodySx(card, tr.lastBody, tb) + " " + res
-	})
-	return hx.L("find", flSx(card), hx.S(principal), hx.S(home), collsSx(colls), tb.Sx()) + " " + hx.L(obs)
-}
-
-// (propfind fl principal (req names) coll (objs)): PROPFIND Depth 1 on the collection
-func runPropfind(card bool, principal string, req []Xname, coll *Coll, objs []*Obj) string {
-	tb := newTabs(card)
-	tb.path(principal)
-	tb.path(coll.Path)
-	for _, o := range objs {
-		tb.obj(o)
-	}
-	w := &world{card: card, principal: principal, home: "/u/cal/", colls: []*Coll{coll}, objs: objs}
-	tr := &inproc{h: w.handler()}
-	cl := newClients(tr)
-	rs := make([]string, len(req))
-	names := make([]xml.Name, len(req))
-	for i, n := range req {
-		rs[i] = n.Sx()
-		names[i] = xml.Name{Space: n.NS, Local: n.Local}
-	}
-	obs := guard(func() string {
-		_, err := cl.ic.PropFind(ctx, coll.Path, verifhook.DepthOne, verifhook.NewPropNamePropFind(names...))
-		if err != nil {
-			return hx.L("failed", errSx(err))
-		}
-		return bodySx(card, tr.lastBody, tb)
-	})
-	return hx.L("propfind", flSx(card), hx.S(principal), hx.L(rs...), coll.Sx(), objsSx(objs), tb.Sx()) + " " + hx.L(obs)
-}
-
-// (get fl reqpath outcome)
-func runGet(card bool, reqpath string, out *Outcome) string {
-	tb := newTabs(card)
-	tb.path(reqpath)
-	tb.outcome(out)
-	hb := newTabs(card)
-	hb.std = true
-	hb.outcome(out)
-	w := &world{card: card, principal: "/u/", byPath: map[string]*Outcome{reqpath: out}}
-	tr := &inproc{h: w.handler()}
-	cl := newClients(tr)
-	obs := guard(func() string {
-		if card {
-			o, err := cl.card.GetAddressObject(ctx, reqpath)
-			if err != nil {
-				return errSx(err)
-			}
-			return hx.L("ok", viewSx(o.Path, o.ETag, o.ModTime, o.ContentLength, cardK(o.Card)))
-		}
-		o, err := cl.cal.GetCalendarObject(ctx, reqpath)
-		if err != nil {
-			return errSx(err)
-		}
-		return hx.L("ok", viewSx(o.Path, o.ETag, o.ModTime, o.ContentLength, calK(o.Data)))
-	})
-	return hx.L("get", flSx(card), hx.S(reqpath), outcomeSx(card, out), tb.Sx(), hb.Sx()) + " " + hx.L(obs)
-}
-
-// (put fl reqpath data outcome)
-func runPut(card bool, reqpath, data string, ret *Outcome) string {
-	tb := newTabs(card)
-	tb.path(reqpath)
-	tb.pay(data)
-	tb.outcome(ret)
-	hb := newTabs(card)
-	hb.std = true
-	hb.outcome(ret)
-	w := &world{card: card, principal: "/u/", putRet: ret}
-	tr := &inproc{h: w.handler()}
-	cl := newClients(tr)
-	obs := guard(func() string {
-		var res string
-		if card {
-			o, err := cl.card.PutAddressObject(ctx, reqpath, cardFromK(data))
-			if err != nil {
-				res = errSx(err)
-			} else {
-				res = hx.L("ok", viewSx(o.Path, o.ETag, o.ModTime, o.ContentLength, ""))
-			}
-		} else {
-			o, err := cl.cal.PutCalendarObject(ctx, reqpath, calFromK(data))
-			if err != nil {
-				res = errSx(err)
-			} else {
-				res = hx.L("ok", viewSx(o.Path, o.ETag, o.ModTime, o.ContentLength, ""))
-			}
-		}
-		recv := "n"
-		if w.putCalled {
-			recv = hx.L(hx.S(w.putPath), hx.S(w.putData))
-		}
-		return res + " " + recv
-	})
-	return hx.L("put", flSx(card), hx.S(reqpath), hx.S(data), outcomeSx(card, ret), tb.Sx(), hb.Sx()) + " " + hx.L(obs)
-}
-
-type putStep struct {
-	Data string
-	Ret  *Outcome
-}
-
-// (putseq fl reqpath pre ((data outcome)...)): a short HISTORY of PUTs at one request path
-// against a backend double with state: what a Put stored is retrievable afterwards (at the
-// request path and at the path the backend answered); pre: an object is retrievable at
-// the request path before the first PUT.  Per step: the client's result and what the
-// backend received.
-func runPutSeq(card bool, reqpath string, pre bool, steps []putStep) string {
-	tb := newTabs(card)
-	tb.path(reqpath)
-	hb := newTabs(card)
-	hb.std = true
-	var in []string
-	for _, st := range steps {
-		tb.pay(st.Data)
-		tb.outcome(st.Ret)
-		hb.outcome(st.Ret)
-		in = append(in, hx.L(hx.S(st.Data), outcomeSx(card, st.Ret)))
-	}
-	w := &world{card: card, principal: "/u/", stateful: true}
-	if pre && len(steps) > 0 {
-		w.stored = map[string]*Obj{reqpath: {Path: reqpath, ETag: "pre", Sec: 1600000000, Data: steps[0].Data}}
-	}
-	tr := &inproc{h: w.handler()}
-	cl := newClients(tr)
-	var obs []string
-	for _, st := range steps {
-		st := st
-		w.putRet, w.putCalled, w.putPath, w.putData = st.Ret, false, "", ""
-		obs = append(obs, guard(func() string {
-			var res string
-			if card {
-				o, err := cl.card.PutAddressObject(ctx, reqpath, cardFromK(st.Data))
-				if err != nil {
-					res = errSx(err)
-				} else {
-					res = hx.L("ok", viewSx(o.Path, o.ETag, o.ModTime, o.ContentLength, ""))
-				}
-			} else {
-				o, err := cl.cal.PutCalendarObject(ctx, reqpath, calFromK(st.Data))
-				if err != nil {
-					res = errSx(err)
-				} else {
-					res = hx.L("ok", viewSx(o.Path, o.ETag, o.ModTime, o.ContentLength, ""))
-				}
-			}
-			recv := "n"
-			if w.putCalled {
-				recv = hx.L(hx.S(w.putPath), hx.S(w.putData))
-			}
-			return hx.L(res, recv)
-		}))
-	}
-	preSx := "0"
-	if pre {
-		preSx = "1"
-	}
-	return hx.L("putseq", flSx(card), hx.S(reqpath), preSx, hx.L(in...), tb.Sx(), hb.Sx()) + " " + hx.L(obs...)
-}
-
-// ---------------------------------------------------------------- documents fed to the clients
-
-func seedOf(s string) uint64 {
-	h := fnv.New64a()
-	h.Write([]byte(s))
-	return h.Sum64()
-}
-
-// feed serializes the tree with the harness's own writer, reads it back (the tree the
-// client is given) and runs one client call on it.
-func feed(card bool, call, reqpath string, tree *Tree, rng *hx.Rand, tb *tabs) string {
-	data := serialize(tree, rng)
-	seen, err := readTree(data)
-	if err != nil {
-		return hx.L("unwritable", hx.S(err.Error()))
-	}
-	tb.scan(seen)
-	cl := newClients(scripted{data})
-	res := guard(func() string {
-		switch call {
-		case "objects":
-			if card {
-				if rng.Bool() {
-					l, err := cl.card.QueryAddressBook(ctx, reqpath, &carddav.AddressBookQuery{})
-					return cardObjsSx(l, err)
-				}
-				l, err := cl.card.MultiGetAddressBook(ctx, reqpath, &carddav.AddressBookMultiGet{})
-				return cardObjsSx(l, err)
-			}
-			if rng.Bool() {
-				l, err := cl.cal.QueryCalendar(ctx, reqpath, &caldav.CalendarQuery{})
-				return calObjsSx(l, err)
-			}
-			l, err := cl.cal.MultiGetCalendar(ctx, reqpath, &caldav.CalendarMultiGet{})
-			return calObjsSx(l, err)
-		case "find":
-			if card {
-				l, err := cl.card.FindAddressBooks(ctx, reqpath)
-				if err != nil {
-					return errSx(err)
-				}
-				items := []string{"ok"}
-				for _, c := range l {
-					var ad []string
-					for _, t := range c.SupportedAddressData {
-						ad = append(ad, hx.L(hx.S(t.ContentType), hx.S(t.Version)))
-					}
-					items = append(items, hx.L("cv", hx.S(c.Path), hx.S(c.Name), hx.S(c.Description), hx.I(c.MaxResourceSize), hx.L(), hx.L(ad...)))
-				}
-				return hx.L(items...)
-			}
-			l, err := cl.cal.FindCalendars(ctx, reqpath)
-			if err != nil {
-				return errSx(err)
-			}
-			items := []string{"ok"}
-			for _, c := range l {
-				items = append(items, hx.L("cv", hx.S(c.Path), hx.S(c.Name), hx.S(c.Description), hx.I(c.MaxResourceSize), compsSx(c.SupportedComponentSet), hx.L()))
-			}
-			return hx.L(items...)
-		case "sync":
-			r, err := cl.card.SyncCollection(ctx, reqpath, &carddav.SyncQuery{SyncToken: "t0"})
-			if err != nil {
-				return errSx(err)
-			}
-			var up []string
-			for _, o := range r.Updated {
-				up = append(up, hx.L(hx.S(o.Path), hx.S(o.ETag), hx.I(o.ModTime.Unix())))
-			}
-			return hx.L("ok", hx.S(r.SyncToken), hx.L(up...), strsSx(r.Deleted))
-		}
-		panic("harness: bad call " + call)
-	})
-	return seen.Sx() + " " + res
-}
-
-// (vdoc fl call reqpath doc1 doc2): two layouts of one content
-func runVdoc(card bool, call, reqpath string, d1, d2 *WDoc) string {
-	tb := newTabs(card)
-	tb.path(reqpath)
-	in := hx.L("vdoc", flSx(card), call, hx.S(reqpath), d1.Sx(), d2.Sx())
-	rng := hx.NewRand(seedOf(in))
-	for _, d := range []*WDoc{d1, d2} {
-		for _, r := range d.Resps {
-			for _, h := range r.Hrefs {
-				tb.hrefText(h)
-			}
-		}
-	}
-	o1 := feed(card, call, reqpath, docTree(d1), rng, tb)
-	o2 := feed(card, call, reqpath, docTree(d2), rng, tb)
-	return in[:len(in)-1] + " " + tb.Sx() + ") " + hx.L(o1, o2)
-}
-
-// (doc fl call reqpath tree): any tree, also malformed ones
-func runDoc(card bool, call, reqpath string, tree *Tree) string {
-	tb := newTabs(card)
-	tb.path(reqpath)
-	in := hx.L("doc", flSx(card), call, hx.S(reqpath), tree.Sx())
-	rng := hx.NewRand(seedOf(in))
-	o := feed(card, call, reqpath, tree, rng, tb)
-	return in[:len(in)-1] + " " + tb.Sx() + ") " + hx.L(o)
-}
-
-// ---------------------------------------------------------------- replay
-
-func parseStrs(x hx.Sx) []string {
-	var out []string
-	for _, s := range x.List {
-		out = append(out, s.Str())
-	}
-	return out
-}
-
-// execInput re-executes the input part of a case line.
-func execInput(x hx.Sx) string {
-	a := x.Args()
-	card := a[0].Atom == "card"
-	switch x.Head() {
-	case "query":
-		return runQuery(card, a[1].Str(), parseObjs(a[2]))
-	case "multiget":
-		var outs []hrefOut
-		for _, ho := range a[3].List {
-			outs = append(outs, hrefOut{ho.List[0].Str(), parseOutcome(ho.List[1])})
-		}
-		return runMultiget(card, a[1].Str(), parseStrs(a[2]), outs)
-	case "find":
-		var cs []*Coll
-		for _, c := range a[3].List {
-			cs = append(cs, parseColl(c))
-		}
-		return runFind(card, a[1].Str(), a[2].Str(), cs)
-	case "propfind":
-		var req []Xname
-		for _, n := range a[2].List {
-			req = append(req, parseXname(n))
-		}
-		return runPropfind(card, a[1].Str(), req, parseColl(a[3]), parseObjs(a[4]))
-	case "get":
-		return runGet(card, a[1].Str(), parseOutcome(a[2]))
-	case "put":
-		return runPut(card, a[1].Str(), a[2].Str(), parseOutcome(a[3]))
-	case "putseq":
-		var steps []putStep
-		for _, sx := range a[3].List {
-			steps = append(steps, putStep{sx.List[0].Str(), parseOutcome(sx.List[1])})
-		}
-		return runPutSeq(card, a[1].Str(), a[2].Atom == "1", steps)
-	case "vdoc":
-		return runVdoc(card, a[1].Atom, a[2].Str(), parseWDoc(a[3]), parseWDoc(a[4]))
-	case "doc":
-		return runDoc(card, a[1].Atom, a[2].Str(), parseTree(a[3]))
-	}
-	panic("harness: unknown case kind " + x.Head())
-}
